@@ -131,8 +131,8 @@ PROPS = {
         trusted_base=["pkg/symbol/table.go, symbol.go and the Link/Unlink/close-hook behaviour of pkg/port transcribed by hand into theories/Table/Table.v (Go map iteration order fixed; observables compared as sets / per-symbol sequences)", COMMON_MODEL],
     ),
     "C06": dict(
-        level_text="Coq theorems for every history of Insert/Free/Close with fresh instances: at most one symbol per id and per instance; every port link joins existing ports of two PRESENT symbol instances of ONE namespace (no link to a removed or replaced symbol, none across namespaces); lookup returns the inserted symbol after Insert and nothing after Free. REFERENCE INDEX EXACT: along every history whose references carry an id or a name (not both) and in which a name is used by one symbol of a namespace at a time, Table.references holds exactly the resolved port references of the present symbols, reversed (nothing stale, nothing missing), and the name map resolves exactly to the present symbol of that namespace and name. The converse for the port wiring itself (every such reference is also linked when both nodes offer the ports) is compared exactly with the implementation: generated universes (ids, names, two namespaces, cycles, self and dangling references, missing ports) and histories on a real symbol.Table with real nodes, with Keys and the wiring of every out-port (resolved by pointer identity to instances) after every operation.",
-        level_note="Trusted: Coq kernel + vm_compute; hand transcription of table.go / symbol.go / port linking. Completeness of the port wiring (links) is correspondence-checked, not proved; the reference index is proved exact under the history condition (computable: wf_from_b; all generated histories meet it).",
+        level_text="Coq theorems for every history of Insert/Free/Close with fresh instances: at most one symbol per id and per instance; every port link joins existing ports of two PRESENT symbol instances of ONE namespace (no link to a removed or replaced symbol, none across namespaces); lookup returns the inserted symbol after Insert and nothing after Free. REFERENCE INDEX EXACT: along every history whose references carry an id or a name (not both) and in which a name is used by one symbol of a namespace at a time, Table.references holds exactly the resolved port references of the present symbols, reversed (nothing stale, nothing missing), and the name map resolves exactly to the present symbol of that namespace and name. WIRING EXACT: along the same histories (every inserted symbol a new instance; lifecycle flows may fail) the port links are exactly the resolved references of the present symbols between ports their nodes offer - every such reference is linked and nothing else is. Tied to pkg/symbol by exact comparison with the implementation: generated universes (ids, names, two namespaces, cycles, self and dangling references, missing ports) and histories on a real symbol.Table with real nodes, with Keys and the wiring of every out-port (resolved by pointer identity to instances) after every operation.",
+        level_note="Trusted: Coq kernel + vm_compute; hand transcription of table.go / symbol.go / port linking. The history condition is computable (wf_from_b / wf3_from_b) and all generated histories meet it; histories outside it (two symbols of one name in a namespace, references with both id and name, reused instances) are outside the theorems.",
         technique="Coq invariant proof over histories (links sound, ids unique) + vm_compute correspondence of exact wiring sets",
         quick_n=300, thorough_n=8000, shard=20, mismatch_is_failure=True,
         assumptions=["one table operation at a time (Table serialises them under its mutex; C20)", "hooks succeed"],
@@ -179,8 +179,8 @@ PROPS = {
         trusted_base=["pkg/template, pkg/spec (Bind/Build), pkg/value (Is) transcribed by hand into theories/Template/Template.v", COMMON_MODEL],
     ),
     "C02": dict(
-        level_text="Coq theorems about the Tracer every node owns, as a state machine over its method calls (any schedule of the forward/backward loops of all processes is a sequence of calls): for EVERY call sequence, per reader, answered requests followed by pending requests are exactly the requests read, in order (each request answered at most once, none overtaking, none lost); the reader branch answers exactly the longest prefix of the queue whose slots are recorded and completely filled, each with the join of its slots (the repaired defect: a request between Read and Link was answered with the empty packet); the answer of a derived packet is filed in exactly that packet's slot whatever the answer order, never out of range. END TO END FOR ONE NODE (refinement): a specification machine keeps for every unanswered request the row of the packets derived from it, in link order, with the answer each has received, and answers a request only when it is the oldest unanswered request of its reader and its row is non-empty and complete - with the join of the row; for EVERY call sequence that keeps the node discipline (fresh packets; a packet is linked only to unanswered requests and before it is written; all packets derived from a request are linked before the first of them is written; each derived packet written at most once; a request without derived packets answered directly; a packet may be derived from several requests) the tracer hands out exactly the specification's answers (same requests, readers, packets, order), holds the same pending requests and writes, and never indexes out of range; the discipline keeps the specification's invariant. The discipline is computable: the correspondence run checks it on every call sequence it drives through the real Tracer (one-to-one, one-to-many, many-to-one and direct answers, random interleavings) and compares the real answers with the specification's and with the tracer model's. PARTIAL: composition ACROSS nodes is compared exactly with the implementation at node level (real OneToOne/OneToMany/ManyToOne nodes in chains, fan-out, diamonds, fan-in; actions held open and released in random order; several requests pipelined in one process; every source answer checked against a reference evaluation).",
-        level_note="Partial as stated: the workflow-level composition relies on C01 (in-order, exactly-once responses per writer) and is not a Coq theorem. Trusted: Coq kernel + vm_compute; hand transcription of tracer.go (hooks/Dispatch left out: the three node kinds do not use them); that the node loops (onetoone.go, onetomany.go, manytoone.go, readgroup.go) keep the discipline is read off their code and exercised (the harness's sequences are checked against the predicate), not proved. Node-level schedules are random (seeded) but not replayable exactly: the oracle is schedule-independent except for which input completes a many-to-one group, where both outcomes are accepted.",
+        level_text="Coq theorems about the Tracer every node owns, as a state machine over its method calls (any schedule of the forward/backward loops of all processes is a sequence of calls): for EVERY call sequence, per reader, answered requests followed by pending requests are exactly the requests read, in order (each request answered at most once, none overtaking, none lost); the reader branch answers exactly the longest prefix of the queue whose slots are recorded and completely filled, each with the join of its slots (the repaired defect: a request between Read and Link was answered with the empty packet); the answer of a derived packet is filed in exactly that packet's slot whatever the answer order, never out of range. END TO END FOR ONE NODE (refinement): a specification machine keeps for every unanswered request the row of the packets derived from it, in link order, with the answer each has received, and answers a request only when it is the oldest unanswered request of its reader and its row is non-empty and complete - with the join of the row; for EVERY call sequence that keeps the node discipline (fresh packets; a packet is linked only to unanswered requests and before it is written; all packets derived from a request are linked before the first of them is written; each derived packet written at most once; a request without derived packets answered directly; a packet may be derived from several requests) the tracer hands out exactly the specification's answers (same requests, readers, packets, order), holds the same pending requests and writes, and never indexes out of range; the discipline keeps the specification's invariant; and EVERY interleaving of the forward loops of the three node kinds (per request: Read, then Write(nil, request) or Link for every derived packet followed by Write for every one) with one another and with Receive calls, packets being fresh, keeps the discipline - so in every schedule of the node loops the tracer hands out the specification's answers. The discipline is computable: the correspondence run checks it on every call sequence it drives through the real Tracer (one-to-one, one-to-many, many-to-one and direct answers, random interleavings) and compares the real answers with the specification's and with the tracer model's. PARTIAL: composition ACROSS nodes is compared exactly with the implementation at node level (real OneToOne/OneToMany/ManyToOne nodes in chains, fan-out, diamonds, fan-in; actions held open and released in random order; several requests pipelined in one process; every source answer checked against a reference evaluation).",
+        level_note="Partial as stated: the workflow-level composition relies on C01 (in-order, exactly-once responses per writer) and is not a Coq theorem. Trusted: Coq kernel + vm_compute; hand transcription of tracer.go (hooks/Dispatch left out: the three node kinds do not use them); the node loops (onetoone.go, onetomany.go, manytoone.go) enter the proof as lists of tracer calls per request read off their code (Node/Loops.v); that reading is checked on every run against the call sequences recorded from the real nodes. Node-level schedules are random (seeded) but not replayable exactly: the oracle is schedule-independent except for which input completes a many-to-one group, where both outcomes are accepted.",
         technique="Coq proof (ledger invariant over all call sequences; refinement of the tracer to a request/row specification by simulation, with the invariant of the node discipline) + vm_compute correspondence of a real Tracer against model and specification + node-level reference-evaluation oracle under random schedules",
         quick_n=300, thorough_n=6000, shard=100, mismatch_is_failure=True,
         assumptions=["responses of a writer arrive in write order, exactly once (C01)", "one tracer call at a time (the tracer's mutex; C20)", "workflows are acyclic"],
@@ -203,7 +203,7 @@ PROPS = {
         trusted_base=["pkg/process/process.go, exithook.go transcribed by hand into theories/Process/Process.v", COMMON_MODEL],
     ),
     "C05": dict(
-        level_text="Coq theorems about process-local stores (pkg/process/local.go) and the per-process endpoint maps of ports, modelled at LOCK granularity (every Lock/RLock, critical section, Unlock and call of user code is one step of a thread; a history is any interleaving of any number of threads calling Store / Load / Delete / LoadOrStore / AddStoreHook / RemoveStoreHook / Keys / Close / port Open / port Close / AddExitHook / Exit): no reachable state is a deadlock (unless all threads have returned some thread can step); locks exclude; the initialiser of a lazy cell runs at most once and a process sees at most one run more than its entry was deleted; in every state where all threads have returned a terminated process has no value, lazy cell, waiter list or port endpoint left. The pinned Store (exit hook registered with the store's lock held) is kept in the model with the 3-step wedge as a theorem. Tied to the code by driving a real Local[int], real ports and processes from 2-3 worker goroutines that are held inside every user callback, so that other workers' operations and Exit land between any two critical sections; after each step worker states (returned / held / waiting for a mutex, read off the goroutine dump), map sizes, running processes and the workers' logs are compared with the model. PARTIAL: tracer tables, the debug agent and goroutines are not modelled; they are measured: workloads on a real workflow (with and without the agent, requests abandoned at random points) followed by the exit of every process must leave every port map, both tracers, the agent's process and frame lists empty and the engine's goroutine count back at its starting value within 3 s.",
+        level_text="Coq theorems about process-local stores (pkg/process/local.go) and the per-process endpoint maps of ports, modelled at LOCK granularity (every Lock/RLock, critical section, Unlock and call of user code is one step of a thread; a history is any interleaving of any number of threads calling Store / Load / Delete / LoadOrStore / AddStoreHook / RemoveStoreHook / Keys / Close / port Open / port Close / AddExitHook / Exit): no reachable state is a deadlock (unless all threads have returned some thread can step); locks exclude; the initialiser of a lazy cell runs at most once and a process sees at most one run more than its entry was deleted; in every state where all threads have returned a terminated process has no value, lazy cell, waiter list or port endpoint left. The pinned Store (exit hook registered with the store's lock held) is kept in the model with the 3-step wedge as a theorem. Tied to the code by driving a real Local[int], real ports and processes from 2-3 worker goroutines that are held inside every user callback, so that other workers' operations and Exit land between any two critical sections; after each step worker states (returned / held / waiting for a mutex, read off the goroutine dump), map sizes, running processes and the workers' logs are compared with the model. PARTIAL: tracer tables, the debug agent and goroutines are not modelled; they are measured: workloads on a real workflow (with and without the agent, requests abandoned at random points) followed by the exit of every process must leave every port map, both tracers, the agent's process and frame lists empty and the engine's goroutine count back at its starting value within 3 s. Also proved: the tracer of a node holds nothing (no queue, slot or link) once every request it read is answered and no written packet is outstanding, for every disciplined call sequence (C02).",
         level_note="Partial as stated. Trusted: Coq kernel + vm_compute; hand transcription of local.go, InPort.Open/Close, OutPort.Open/Close, Process.Exit/AddExitHook (flip and hook list only) into theories/Process/Local.v; critical sections are atomic steps between Lock and Unlock (the lock discipline itself is what the no-deadlock and exclusion theorems are about); user code is assumed to return and not to call back into the same store. The harness holds goroutines only inside user code, so finer interleavings are covered by the theorems, not by the correspondence.",
         technique="Coq invariant proofs over all interleavings at lock granularity (well-formed continuations => no deadlock; lock exclusion; single-flight counting; cleanup-coverage invariant => no residue) + vm_compute correspondence under forced interleavings + direct residue / goroutine oracle on real workflows",
         quick_n=250, thorough_n=5000, shard=50, mismatch_is_failure=True,
